@@ -500,6 +500,15 @@ pub fn gen_workload(rng: &mut Rng, cfg: &GenCfg) -> Workload {
         };
         pool.push(s);
     }
+    // "caller crash mid-call" needs a call that panics: in one run of six make sure the pool holds
+    // an input on which the current library is known to panic (a C01 matter in itself; for C16 it
+    // is the only way to leave a call by unwinding)
+    if rng.chance(1, 6) {
+        let p = ["\u{20ac} ", "\u{e9}  x", "\u{65e5}\u{672c}\u{8a9e}  x", "\u{3a9} "];
+        pool.push(p[rng.usize_below(p.len())].to_string());
+    }
+    // compare calls of a run mostly share one or two right-hand sides (state keyed by one side)
+    let rhs: Vec<usize> = (0..1 + rng.usize_below(2)).map(|_| rng.usize_below(pool.len())).collect();
     let nthreads = 1 + rng.usize_below(cfg.max_threads);
     let hot = rng.chance(1, 2); // half of the runs hammer very few abstract calls
     let hot_calls: Vec<(u8, u8, usize, usize)> = (0..1 + rng.usize_below(3))
@@ -510,11 +519,14 @@ pub fn gen_workload(rng: &mut Rng, cfg: &GenCfg) -> Workload {
         let ncalls = if t == 0 && rng.chance(1, 6) { 0 } else { 1 + rng.usize_below(cfg.max_calls) };
         let mut calls = vec![];
         for _ in 0..ncalls {
-            let (profile, kind, a, b) = if hot && rng.chance(3, 4) {
+            let (profile, kind, a, mut b) = if hot && rng.chance(3, 4) {
                 *rng.pick(&hot_calls)
             } else {
                 (*rng.pick(&profiles), *rng.pick(&kinds), rng.usize_below(pool.len()), rng.usize_below(pool.len()))
             };
+            if kind == 2 && rng.chance(1, 2) {
+                b = *rng.pick(&rhs);
+            }
             let api = *rng.pick(&apis);
             let (fa, fb) = if kind == 2 {
                 (rng.below(CMP_FORMS.len() as u64) as u8, rng.below(CMP_FORMS.len() as u64) as u8)
@@ -570,6 +582,59 @@ pub fn gen_phased_workload(rng: &mut Rng, nthreads: usize, phases: usize) -> Wor
             let b = if kind == 2 { base + rng.usize_below(nstr) } else { 0 };
             t.calls.push(Call { profile, kind, api, fa, fb, a, b });
         }
+    }
+    Workload { pool, threads }
+}
+
+/// "Crash-recovery" workload: op, the same kind of op crashing half-way (a call that panics and
+/// is caught), the first op again - the classic crash-consistency probe, with the library call as
+/// the unit. The crashing call shares profile, operation, API form and (for compare) one side with
+/// the surrounding calls, so that whatever the library checked out, locked or half-updated for
+/// that side when the panic unwound is what the next call meets.
+pub const PANICKING_INPUTS: [&str; 5] = ["\u{20ac} ", "\u{e9}  x", "\u{65e5}\u{672c}\u{8a9e}  x", "\u{3a9} ", "a\u{df}  "];
+
+pub fn gen_crash_workload(rng: &mut Rng) -> Workload {
+    let profile = if rng.chance(3, 4) { 3 } else { rng.below(4) as u8 }; // the known panics are in the nickname rules
+    let api = if rng.chance(3, 4) { 0 } else { rng.below(API_FORMS.len() as u64) as u8 };
+    let all: Vec<usize> = (0..TOKENS.len()).collect();
+    let mut pool: Vec<String> = vec![];
+    let base = match rng.below(3) {
+        0 => LITERALS[rng.usize_below(LITERALS.len())].to_string(),
+        1 => ["Guybrush", "foo", "Foo Bar", "lechuck", "x"][rng.usize_below(5)].to_string(),
+        _ => gen_string(rng, &all),
+    };
+    pool.push(base.clone()); // 0: x
+    pool.push(if rng.chance(1, 2) { base.clone() } else { variant(rng, &base) }); // 1: R, equal or nearly equal to x
+    pool.push(PANICKING_INPUTS[rng.usize_below(PANICKING_INPUTS.len())].to_string()); // 2: P
+    pool.push(gen_string(rng, &all)); // 3: y
+    let nthreads = 1 + rng.usize_below(2);
+    let mut threads = vec![];
+    for t in 0..nthreads {
+        let mut calls = vec![];
+        let kind = if rng.chance(2, 3) { 2 } else { 1 };
+        let mk = |a: usize, b: usize, rng: &mut Rng| Call {
+            profile, kind, api,
+            fa: if kind == 2 { rng.below(4) as u8 } else { rng.below(ARG_FORMS.len() as u64) as u8 },
+            fb: if kind == 2 { rng.below(4) as u8 } else { 0 },
+            a, b: if kind == 2 { b } else { 0 },
+        };
+        let crash_left = rng.chance(2, 3);
+        calls.push(mk(0, 1, rng));
+        if rng.chance(1, 2) {
+            calls.push(mk(3, 1, rng));
+        }
+        calls.push(if crash_left { mk(2, 1, rng) } else { mk(0, 2, rng) }); // the crash
+        calls.push(mk(0, 1, rng));
+        calls.push(mk(3, 1, rng));
+        calls.push(mk(1, 1, rng));
+        // and the same questions through a fresh instance, for the oracle to compare with
+        let n = calls.len();
+        for i in 0..n {
+            let mut c = calls[i].clone();
+            c.api = 1;
+            calls.push(c);
+        }
+        threads.push(ThreadPlan { parent: 0, after: if t == 0 { 0 } else { rng.usize_below(3) }, calls });
     }
     Workload { pool, threads }
 }
